@@ -1,8 +1,241 @@
 package stake
 
 import (
+	"fmt"
+	"math/rand"
+
+	"0chain.net/chaincore/transaction"
+	"0chain.net/smartcontract/minersc"
+	"0chain.net/smartcontract/stakepool/spenum"
+	"0chain.net/smartcontract/storagesc"
+	"0chain.net/smartcontract/zcnsc"
+
+	"github.com/0chain/common/core/currency"
+	"github.com/0chain/common/core/util"
+
 	"verif/harness/common"
 	"verif/harness/rec"
+	"verif/harness/world"
 )
 
-func runC11(a common.Args) { rec.Fatal("C11 not built yet") }
+// ---------------------------------------------------------------------------------------------
+// C11: staking and unstaking return exactly what was locked.
+//
+// Every trace forks from the base block (8 registered providers on the three contracts) and runs a seeded
+// history of REAL lock / unlock / collect transactions through Chain.UpdateState (recorded as Ledger `Txn`
+// events by w.DoRec), interleaved with reward payments (the contracts' own load / DistributeRewards / save
+// sequence, see the VerifStakeReward hooks) and an occasional kill.  After every step a `Stake` event
+// carries the balance delta of the caller and of the contract wallet and ALL delegate pools of ALL
+// providers read back from the MPT.
+
+type staker struct {
+	w  *world.World
+	e  *env
+	rc *rec.Recorder
+	r  *rand.Rand
+}
+
+type allPools struct {
+	bal, rew, sp []pair
+	kind         map[string]string // provider name -> codec of the node found at its key ("" if none)
+	killed       map[string]bool
+	offers       map[string]uint64
+	strays       int // stake-pool nodes at keys that belong to no provider
+}
+
+// project reads all stake pools back from the block state.
+func (e *env) project(s util.MerklePatriciaTrieI) allPools {
+	ns := e.stakeNodes(s)
+	out := allPools{kind: map[string]string{}, killed: map[string]bool{}, offers: map[string]uint64{}}
+	used := map[string]bool{}
+	for _, p := range e.provs {
+		n := findNode(ns, spKey(p))
+		if n == nil {
+			continue
+		}
+		used[n.Key] = true
+		out.kind[p.Name] = n.Kind
+		out.killed[p.Name] = n.SP.HasBeenKilled
+		out.offers[p.Name] = n.Offers
+		b, r := e.poolPairs(n.SP)
+		for i := range b {
+			out.bal = append(out.bal, pair{p.Name + "/" + b[i].A, b[i].D})
+			out.rew = append(out.rew, pair{p.Name + "/" + r[i].A, r[i].D})
+		}
+		out.sp = append(out.sp, pair{p.Name, capU(uint64(n.SP.Reward))})
+	}
+	for _, n := range ns {
+		if !used[n.Key] {
+			out.strays++
+		}
+	}
+	out.bal, out.rew, out.sp = orEmpty(out.bal), orEmpty(out.rew), orEmpty(out.sp)
+	return out
+}
+
+// the codec in which each contract itself reads its stake pools
+var ownCodec = map[string]string{"minersc": "minersc", "storagesc": "storagesc", "zcnsc": "zcnsc"}
+
+func pairOf(ps []pair, a string) (int64, bool) {
+	for _, p := range ps {
+		if p.A == a {
+			return p.D, true
+		}
+	}
+	return 0, false
+}
+
+func runC11(a common.Args) {
+	e := newEnv(nil)
+	defer e.w.Close()
+	rc := rec.New(a.Out)
+	defer rc.Close()
+	g := &staker{w: e.w, e: e, rc: rc}
+	id := 0
+	for i := 0; i < a.N; i++ {
+		id++
+		if a.Only != 0 && a.Only != id {
+			rc.TraceID = id
+			continue
+		}
+		g.r = common.TraceRand(a.Seed, id)
+		g.history(a, id)
+	}
+}
+
+func (g *staker) callers() []*world.Key {
+	w := g.w
+	return []*world.Key{w.Clients[0], w.Clients[1], w.Clients[2], w.ByName["x1"]}
+}
+
+func (g *staker) history(a common.Args, id int) {
+	w, e := g.w, g.e
+	w.BeginBlock(e.base)
+	start := e.project(w.CurState)
+	g.rc.TraceID = id - 1
+	g.rc.Reset(rec.M{"family": "stake", "prop": "C11", "id": id, "seed": a.Seed, "steps": a.Steps},
+		rec.M{"nonces": w.InitNonces(w.CurState), "bal": start.bal, "rew": start.rew, "sp": start.sp})
+	// a trace concentrates on two or three providers so that histories on one pool get deep
+	var focus []*prov
+	for _, i := range g.r.Perm(len(e.provs))[:2+g.r.Intn(2)] {
+		focus = append(focus, e.provs[i])
+	}
+	for i := 0; i < a.Steps; i++ {
+		if g.r.Intn(10) == 0 {
+			w.EndBlock()
+			w.BeginBlock()
+		}
+		p := focus[g.r.Intn(len(focus))]
+		who := g.callers()[g.r.Intn(4)]
+		if g.r.Intn(6) == 0 {
+			who = p.Wallet // the delegate wallet stakes / collects too (it also gets the service charge)
+		}
+		switch x := g.r.Intn(100); {
+		case x < 38:
+			v := []uint64{0, 1, cfgMinStake - 1, cfgMinStake, cfgMinStake, 150, 500, 500, 1000, 7777, cfgMaxStake / 2, cfgMaxStake - 100, cfgMaxStake, cfgMaxStake + 1}[g.r.Intn(14)]
+			g.txn("lock", p, who, v)
+		case x < 60:
+			g.txn("unlock", p, who, 0)
+		case x < 72:
+			g.txn("collect", p, who, 0)
+		case x < 96:
+			g.reward(p, []uint64{1, 2, 3, 7, 10, 99, 100, 1001, 5000}[g.r.Intn(9)])
+		default:
+			if p.SC == "storagesc" {
+				fn := "kill_blobber"
+				if p.Type == spenum.Validator {
+					fn = "kill_validator"
+				}
+				g.txnFn("kill", fn, p, w.Owner, 0)
+			} else {
+				g.reward(p, 50)
+			}
+		}
+	}
+	w.EndBlock()
+}
+
+func (g *staker) txn(op string, p *prov, who *world.Key, value uint64) {
+	fn := map[string]map[string]string{"lock": fnLock, "unlock": fnUnlock, "collect": fnCollect}[op][p.SC]
+	g.txnFn(op, fn, p, who, value)
+}
+
+func (g *staker) txnFn(op, fn string, p *prov, who *world.Key, value uint64) {
+	w, e := g.w, g.e
+	pre := e.project(w.CurState)
+	cb, wb := w.Balance(who.ID), w.Balance(world.Contracts[p.SC])
+	res := w.DoRec(g.rc, world.TxnSpec{From: who, To: world.Contracts[p.SC], Type: transaction.TxnTypeSmartContract, Fn: fn,
+		Input: map[string]interface{}{"provider_id": p.Key.ID, "provider_type": int(p.Type)}, Value: value}, rec.M{"src": "stake"})
+	post := e.project(w.CurState)
+	g.emit(op, p, who, value, res.Class, pre, post, diffU(w.Balance(who.ID), cb), diffU(w.Balance(world.Contracts[p.SC]), wb))
+}
+
+// reward pays `value` into the stake pool of p with the contract's own sequence (load, DistributeRewards,
+// save) in a real state context that is merged into the block state like a transaction's.
+func (g *staker) reward(p *prov, value uint64) {
+	w, e := g.w, g.e
+	pre := e.project(w.CurState)
+	wb := w.Balance(world.Contracts[p.SC])
+	sc, commit := e.sctx(w.Owner, world.Contracts[p.SC])
+	var err error
+	class := "ok"
+	func() {
+		defer func() {
+			if r := recover(); r != nil {
+				err = fmt.Errorf("panic: %v", r)
+				class = "panic"
+			}
+		}()
+		switch p.SC {
+		case "storagesc":
+			err = storagesc.VerifStakeReward(p.Type, p.Key.ID, currency.Coin(value), sc)
+		case "minersc":
+			err = minersc.VerifStakeReward(p.Type, p.Key.ID, currency.Coin(value), sc)
+		case "zcnsc":
+			err = zcnsc.VerifStakeReward(p.Key.ID, currency.Coin(value), sc)
+		}
+	}()
+	if err == nil {
+		commit()
+	} else if class == "ok" {
+		class = "chargeable"
+	}
+	post := e.project(w.CurState)
+	g.emit("reward", p, w.Owner, value, class, pre, post, 0, diffU(w.Balance(world.Contracts[p.SC]), wb))
+}
+
+func (g *staker) emit(op string, p *prov, who *world.Key, value uint64, class string, pre, post allPools, cd, wd int64) {
+	key := p.Name + "/" + g.w.Name(who.ID)
+	_, had := pairOf(pre.bal, key)
+	_, has := pairOf(post.bal, key)
+	mismatch := (pre.kind[p.Name] != "" && pre.kind[p.Name] != ownCodec[p.SC]) || (post.kind[p.Name] != "" && post.kind[p.Name] != ownCodec[p.SC])
+	nPools := 0
+	provKeys := []string{}
+	seen := map[string]bool{}
+	for _, b := range post.bal {
+		if len(b.A) > len(p.Name) && b.A[:len(p.Name)+1] == p.Name+"/" {
+			nPools++
+			seen[b.A] = true
+			provKeys = append(provKeys, b.A)
+		}
+	}
+	for _, b := range pre.bal {
+		if len(b.A) > len(p.Name) && b.A[:len(p.Name)+1] == p.Name+"/" && !seen[b.A] {
+			provKeys = append(provKeys, b.A)
+		}
+	}
+	m := rec.M{
+		"ev": "Stake", "op": op, "sc": p.SC, "prov": p.Name, "ptype": p.Type.String(), "caller": g.w.Name(who.ID), "key": key,
+		"is_wallet": who.ID == p.Wallet.ID, "value": capU(value), "ok": class == "ok", "class": class,
+		"caller_delta": cd, "wallet_delta": wd,
+		"pre_bal": pre.bal, "pre_rew": pre.rew, "sp_pre": pre.sp, "post_bal": post.bal, "post_rew": post.rew, "sp_post": post.sp,
+		"min_lock": cfgMinStake, "max_stake": cfgMaxStake, "max_del": p.MaxDel, "n_pools": nPools, "prov_keys": provKeys, "offers": capU(pre.offers[p.Name]),
+		"enc_mismatch": mismatch, "strays": post.strays, "panic": class == "panic",
+	}
+	outcome := class
+	if op == "lock" || op == "unlock" {
+		outcome = fmt.Sprintf("%s/had=%v", class, had)
+	}
+	_ = has
+	g.rc.Emit(m, op+"/"+p.Type.String()+"/"+outcome, class == "ok")
+}
